@@ -354,6 +354,11 @@ func report(ck *Check, tier string, seed int64, results []*Result, start time.Ti
 			cover[k] += v
 		}
 		mine := 0
+		if os.Getenv("VERIF_DEBUG") != "" && len(r.Violations) > 0 {
+			for _, v := range r.Violations {
+				fmt.Printf("DEBUG scen=%s params=%q seed=%d props=%v sig=%s: %.300s\n", r.Scen, r.spec.Params, r.Seed, v.Props, v.Sig, v.Msg)
+			}
+		}
 		for _, v := range r.Violations {
 			rel := false
 			for _, p := range v.Props {
